@@ -46,6 +46,18 @@ func (c *Class) classIdentifierProcessing(
 	ctx.StartDefineStatic()
 	defer ctx.EndDefineStatic()
 
+	// the singleton class body has visibility sections of its own: it starts
+	// public whatever section of the class body it is written in, and that
+	// section continues after it
+	isPrivate, isProtected := ctx.IsPrivate, ctx.IsProtected
+
+	ctx.EndPrivate()
+	ctx.EndProtected()
+
+	defer func() {
+		ctx.IsPrivate, ctx.IsProtected = isPrivate, isProtected
+	}()
+
 	for {
 		nextT, err := p.Read()
 		if err != nil {
